@@ -25,6 +25,7 @@ import (
 	"strconv"
 	"strings"
 	"sync"
+	"sync/atomic"
 	"syscall"
 	"time"
 
@@ -96,6 +97,10 @@ func childWrite30() {
 }
 
 const big = 4000
+
+// stepDeadline: a resumed child that reaches neither its next system call nor its exit within this time hangs
+// (every step normally takes milliseconds; the reader's own watchdog is far above)
+const stepDeadline = 20 * time.Second
 
 // Input is one case: a history, the reader kind and the schedule
 type Input struct {
@@ -216,6 +221,8 @@ type proc struct {
 	nsteps  int
 	labels  []label
 	proc    *os.Process
+	hung    bool        // no further ptrace stop within stepDeadline although the process was resumed
+	hungF   atomic.Bool // set by the deadline timer
 }
 
 var sysNames = map[uint64]string{1: "write", 3: "close", 8: "lseek", 18: "pwrite64", 77: "ftruncate", 91: "fchmod",
@@ -292,6 +299,10 @@ func startProc(args []string, extra []*os.File, stdout *os.File, root string, wr
 		p.kill()
 		return nil, err
 	}
+	if p.hung {
+		p.kill()
+		return nil, infra("child %v made no progress before its first DB call", args[1])
+	}
 	return p, nil
 }
 
@@ -318,8 +329,17 @@ func (p *proc) resume() (syscallStop bool, err error) {
 			return false, infra("ptrace syscall (pid %d): %v", p.pid, err)
 		}
 		var ws syscall.WaitStatus
-		if _, err := syscall.Wait4(p.pid, &ws, 0, nil); err != nil {
-			return false, infra("wait4: %v", err)
+		timer := time.AfterFunc(stepDeadline, func() {
+			p.hungF.Store(true)
+			syscall.Kill(p.pid, syscall.SIGKILL)
+		})
+		_, werr := syscall.Wait4(p.pid, &ws, 0, nil)
+		timer.Stop()
+		if werr != nil {
+			return false, infra("wait4: %v", werr)
+		}
+		if p.hungF.Load() && (ws.Signaled() || ws.Exited()) {
+			p.hung = true
 		}
 		switch {
 		case ws.Exited():
@@ -670,7 +690,13 @@ func runOnce(in Input, tag string) (*outcome, error) {
 		return nil, infra("watchdog timeout")
 	}
 	out := &outcome{labels: r.labels, wsteps: w.nsteps, rsteps: r.nsteps}
-	if r.code != 0 {
+	if w.hung {
+		return nil, infra("writer child made no progress for %v", stepDeadline)
+	}
+	if r.hung {
+		// the resumed reader reached neither a system call nor its end: an observation about the code under test
+		out.read = readOut{ReadResult: wo.ReadResult{Status: "hang", Msg: fmt.Sprintf("reader made no progress for %v after its DB call %d (killed)", stepDeadline, r.nsteps)}}
+	} else if r.code != 0 {
 		b, _ := os.ReadFile(rout.Name())
 		out.read = readOut{ReadResult: wo.ReadResult{Status: "panic", Msg: fmt.Sprintf("reader exit %d: %s", r.code, tail(string(b)))}}
 		if r.code > 128 {
@@ -791,6 +817,9 @@ func runCase(in Input) (*vhlib.Case, error) {
 		mode = "query"
 	}
 	c.Tags = []string{mode, in.Why, fmt.Sprintf("enoent-%d", min(nEnoent, 3))}
+	if out.read.Status == "hang" {
+		c.Tags = append(c.Tags, "reader-hang")
+	}
 	if !out.writeOK {
 		return nil, infra("a fault-free write-out failed: %s (input %s)", out.writeErr, hashOf(in))
 	}
